@@ -170,7 +170,9 @@ def unknown_is_err(ctx):
         for (tb, sb, ce, be) in try_edges(b):
             if operand_local(b.term(tb)["args"][0]) in fl and be is not None:
                 checked = True
-        unwrapped = [x for x, tt in b.calls() if re.search(r"Option::<.*>::(unwrap|expect)$", callee_decl(tt)) and operand_local(tt["args"][0]) in fl]
+        # unwrapped: applied to the lookup's own result (moves / refs / `as_ref` in between), not to something merely computed from what was found
+        unwrapped = [x for x, tt in b.calls() if re.search(r"Option::<.*>::(unwrap|expect)$", callee_decl(tt)) and operand_local(tt["args"][0]) is not None
+                     and origin_matches(origins(b, operand_local(tt["args"][0])), lambda o: o[0] == "call" and o[2] == bb, through_fields=False)]
         if not checked:
             # `match lookup { None => return Err(..), Some(x) => x }`
             for e in b.edges:
@@ -606,14 +608,15 @@ def no_panic_config(ctx):
     for (x, b, bb, kind, detail) in sites:
         lab = short(x)
         # guards may sit in the caller when the site was extracted into a helper: judge the site in the root view that contains it
-        vb, vbb = (b, bb)
+        # (a helper spliced into several callers is judged in each of them: every copy must be justified)
+        copies = []
         if x != "main":
-            root = r.container(b)
-            rv = r.V(root)
-            nb = bb if root.name == b.name else rv.locate(b.name, bb)
-            if nb is not None:
-                vb, vbb = rv, nb
-        why = justified_panic_site(ctx, vb, vbb, kind, detail, roles) or (justified_panic_site(ctx, b, bb, kind, detail, roles) if vb is not b else None)
+            for root in r.containers(b):
+                rv = r.V(root)
+                copies += [(rv, nb) for nb in ([bb] if root.name == b.name else rv.locate_all(b.name, bb))]
+        copies = copies or [(b, bb)]
+        whys = [justified_panic_site(ctx, vb, vbb, kind, detail, roles) or (justified_panic_site(ctx, b, bb, kind, detail, roles) if vb is not b else None) for (vb, vbb) in copies]
+        why = whys[0] if all(whys) else None
         if why:
             ctx.ok(f"{lab}/{kind}@{_site_ord(sites, x, bb, kind)}", [site(b, bb)], why)
         else:
